@@ -83,12 +83,15 @@ CHECKS = {
     "C05": ("proof",
             "Coq theorems (exact instance): the bookkeeping invariant holds at zero and is "
             "preserved by every successful fill (the weight reaches exactly one bin), by + and by "
-            "scaling, hence in every state of every history (inv_reach); " + TIE + "; the "
+            "scaling, hence in every state of every history (inv_reach); for every arithmetic "
+            "instance, binary64 included: a successful routing of Bin / SparselyBin / CentrallyBin / "
+            "IrregularlyBin / Categorize hands the whole weight to exactly one slot and nothing to "
+            "any other (route_one_slot_any, C05_one_slot_f64); " + TIE + "; the "
             "invariant and 'no numeric value makes fill raise' are evaluated on the implementation "
             "after every operation, with +-ulp probes of every edge",
             "the invariant includes the Stack clause (levels non-increasing for ascending thresholds, "
-            "level 0 + nanflow = entries); partial in one respect: the binary64 routing facts (index "
-            "in range for every double) are checked on the implementation (+-ulp probes of every edge) "
+            "level 0 + nanflow = entries); partial in one respect: totality of the binary64 routing (index "
+            "in range for every double, i.e. no numeric value makes fill raise) is checked on the implementation (+-ulp probes of every edge) "
             "and by the bit-exact correspondence only, not proved; histories with vectorised fills, "
             "JSON reloads and pickle clones are checked, the kernels themselves are not modelled",
             "section 6 C05"),
